@@ -8,6 +8,8 @@ Line protocol for the server session model (domain `sess`).
   sess open <conn> <ip>                                          → ok
   sess close <conn>                                              → <summary>
   sess expire <sid>                                              → <summary>
+  sess frame <conn>      (the client sends an interleaved frame)  → <summary>
+  sess response <conn>   (the client sends an RTSP response)      → <summary>
   sess preq <same arguments as req>    (pipelined: sent without waiting)     → st <status> cs <cseq|-> | noconn
   sess sync                                                                    → <summary>
   sess rfc <state> <method>                                      → <allowedStrict> <allowed> <next state>   (Spec/Rfc2326.lean)
@@ -119,6 +121,20 @@ def mk : IO Handler := do
       match c.toNat? with
       | some c =>
         let s := (stepEv (← cfgR.get) (← st.get) (.close c)).1
+        st.set s
+        return summary s
+      | none => return "bad-op"
+    | ["frame", c] =>
+      match c.toNat? with
+      | some c =>
+        let s := (stepEv (← cfgR.get) (← st.get) (.frame c)).1
+        st.set s
+        return summary s
+      | none => return "bad-op"
+    | ["response", c] =>
+      match c.toNat? with
+      | some c =>
+        let s := (stepEv (← cfgR.get) (← st.get) (.response c)).1
         st.set s
         return summary s
       | none => return "bad-op"
